@@ -395,6 +395,67 @@ class FaultRun:
                     return
         self.continue_history(s, "raising_predicate")
 
+    def fault_unserialisable(self, s):
+        """Points that pass validation but cannot be written to the CSV file (an int beyond the float range, text the
+        file's encoding cannot express): the call raises at the storage layer - after validation, possibly after the
+        index was touched.  Memory storage accepts them (nothing to serialise); then nothing is owed."""
+        from tinyflux import MeasurementQuery, Point
+
+        from ..common import from_us
+        from ..gen import BASE_US
+
+        late = from_us(BASE_US + 10**12)
+        good = lambda i: Point(time=from_us(BASE_US + 10**12 + i), measurement="m0", tags={"k": "a"}, fields={"x": i})
+        bads = [
+            ("int beyond float range", lambda: Point(time=late, fields={"x": 10**400})),
+            ("negative int beyond float range", lambda: Point(time=late, fields={"y": -(10**400)})),
+            ("lone surrogate in tag value", lambda: Point(time=late, tags={"k": "a\ud800"})),
+            ("lone surrogate in tag key", lambda: Point(time=late, tags={"\udfff": "v"})),
+            ("lone surrogate in measurement", lambda: Point(time=late, measurement="m\ud83d")),
+            ("lone surrogate in field key", lambda: Point(time=late, fields={"x\udc00": 1})),
+        ]
+        label, mk = self.rng.choice(bads)
+        cases = [
+            (f"insert({label})", lambda db: db.insert(mk()), 0),
+            (f"insert_multiple([good, good, {label}, good])", lambda db: db.insert_multiple([good(1), good(2), mk(), good(3)]), 2),
+            (f"insert_multiple(iter [{label}, good])", lambda db: db.insert_multiple(iter([mk(), good(4)])), 0),
+            (f"handle.insert({label})", lambda db: db.measurement("m0").insert(mk()), 0),
+        ]
+        bp = mk()
+        if bp.tags and "k" in bp.tags:
+            cases.append((f"update(tags={label})", lambda db: db.update(MeasurementQuery().noop(), tags=dict(bp.tags)), None))
+        if bp.fields and isinstance(next(iter(bp.fields.values())), int) and abs(next(iter(bp.fields.values()))) > 10**300:
+            cases.append((f"update(fields={label})", lambda db: db.update(MeasurementQuery().noop(), fields=dict(bp.fields)), None))
+        if bp.measurement != "_default":
+            cases.append((f"update(measurement={label})", lambda db: db.update(MeasurementQuery().noop(), measurement=bp.measurement), None))
+        self.rng.shuffle(cases)
+        for clabel, call, n_good in cases[:3]:
+            pre = s.model.copy()
+            exc = None
+            try:
+                call(s.db)
+            except Exception as e:  # noqa: BLE001
+                exc = e
+            fault = f"unserialisable:{clabel}"
+            s.log.append({"op": "FAULT", "fault": fault})
+            if exc is None:
+                self.res.count("unserialisable_accepted_by_storage")
+                try:
+                    post = s.contents()
+                except Exception:
+                    return
+                if any(c and c[0] == "BAD" for c in post):
+                    return
+                s.model.points = [MPoint(c[0], c[1], dict(c[2]), dict(c[3])) for c in post]
+                continue
+            self.res.count("unserialisable_raised")
+            expected = list(pre.points)
+            if n_good:
+                expected += [MPoint(BASE_US + 10**12 + i, "m0", {"k": "a"}, {"x": i}) for i in range(1, n_good + 1)]
+            if not self.after_fault(s, fault, exc, expected):
+                return
+        self.continue_history(s, "unserialisable")
+
     def fault_unusual_valid_inputs(self, s):
         """Valid but unusual values (instances of str/int/float subclasses, Mapping types other than dict).  They are
         supposed to be accepted; what C11 demands is only: IF the call raises, the database is as it was."""
@@ -510,7 +571,7 @@ class FaultRun:
                 return
 
 
-FAMILIES = ["insert_multiple", "update_callable", "invalid_arguments", "read_only", "raising_predicate", "unusual_valid_inputs"]
+FAMILIES = ["insert_multiple", "update_callable", "invalid_arguments", "read_only", "raising_predicate", "unusual_valid_inputs", "unserialisable"]
 
 
 def run(res, tier, seed, shard, nshards):
@@ -538,6 +599,7 @@ def run(res, tier, seed, shard, nshards):
     res.require("reads_after_fault")
     res.require("file_checks_after_fault")
     res.require("unusual_valid_inputs_accepted")
+    res.require("unserialisable_raised")
     res.assumptions += [
         "update callables misbehave in a single slot per call; insert_multiple offenders are non-Point objects or a raising generator",
         "'still usable' is decided on 5-10 further operations and ~24 reads each, compared with the model",
